@@ -653,6 +653,13 @@ func buildC17(tier string) *core.Plan {
 				c.Fail("cli-bklr", "unparsable", wit, so)
 				return
 			}
+			// running bklr on its own output changes nothing (also when the skeleton is empty)
+			os.WriteFile(filepath.Join(dir, "o", "own.json"), []byte(so), 0o644)
+			so2, se2, code2, _ := runTool(dir, "bklr", "-f", "json", "o/own.json")
+			if code2 != 0 || so2 != so {
+				c.Fail("cli-bklr", "not-idempotent-on-its-own-output", wit, map[string]any{"first": so, "second": so2, "stderr": se2, "exit": code2})
+				return
+			}
 			if want == nil {
 				got2, _ := c14ParseText("json", so)
 				if got2 != nil {
